@@ -1,0 +1,35 @@
+//go:build verif
+
+package syntax
+
+// Exports for the external verification harness (build tag "verif").
+// Nothing in here is referenced by the non-tagged code.
+
+// VerifToken is one token as the scanner cuts it.
+type VerifToken struct {
+	Name string
+	Len  int
+}
+
+// VerifTokenize cuts src into tokens exactly as mmLexInfo.Lex does,
+// including whitespace and comments, and stops after the first INVALID token.
+func VerifTokenize(src []byte) []VerifToken {
+	var out []VerifToken
+	for pos := 0; pos < len(src); {
+		tokid, val := nextToken(src[pos:])
+		// the parser's own translation of scanner codes to token names
+		token := 0
+		if tokid > 0 && tokid < len(mmTok1) {
+			token = int(mmTok1[tokid])
+		} else if tokid >= mmPrivate && tokid < mmPrivate+len(mmTok2) {
+			token = int(mmTok2[tokid-mmPrivate])
+		}
+		name := mmTokname(token)
+		out = append(out, VerifToken{Name: name, Len: len(val)})
+		if tokid == INVALID || len(val) == 0 {
+			break
+		}
+		pos += len(val)
+	}
+	return out
+}
